@@ -124,6 +124,28 @@ func vrfPanics(f func()) (p bool) {
 
 func vrfDeepEqual(a, b interface{}) bool { return reflect.DeepEqual(a, b) }
 
+// vrfSameMultiset: two slices hold the same elements with the same multiplicities (element equality = DeepEqual).
+func vrfSameMultiset(a, b interface{}) bool {
+	va, vb := reflect.ValueOf(a), reflect.ValueOf(b)
+	if va.Len() != vb.Len() {
+		return false
+	}
+	used := make([]bool, vb.Len())
+	for i := 0; i < va.Len(); i++ {
+		found := false
+		for j := 0; j < vb.Len(); j++ {
+			if !used[j] && reflect.DeepEqual(va.Index(i).Interface(), vb.Index(j).Interface()) {
+				used[j], found = true, true
+				break
+			}
+		}
+		if !found {
+			return false
+		}
+	}
+	return true
+}
+
 // vrfDeepCopy: structural copy preserving aliasing, including unexported fields.
 func vrfDeepCopy(x interface{}) interface{} {
 	if x == nil {
